@@ -11,14 +11,22 @@ from __future__ import annotations
 
 FIELDS = {
     "Query": [("a", None), ("nn", None), ("o", "Node"), ("l", "Node"), ("strict", "Node"), ("named", "Named"), ("odd", None),
-              ("args", None), ("__typename", None)],
+              ("args", None), ("__typename", None), ("u", "Thing"), ("things", "Thing")],
     "Node": [("id", None), ("name", None), ("nn", None), ("child", "Node"), ("kids", "Node"), ("strict", "Node"), ("odd", None),
-             ("named", "Named"), ("color", None), ("args", None), ("__typename", None)],
+             ("named", "Named"), ("color", None), ("args", None), ("__typename", None), ("thing", "Thing")],
     "Named": [("name", None), ("__typename", None)],
+    "Thing": [("__typename", None)],
+    "Other": [("y", None), ("name", None), ("__typename", None)],
     "Mutation": [("m", None), ("n", "Node")],
+    "Subscription": [("a", None), ("tick", None), ("o", "Node"), ("things", "Thing")],
 }
-LIST_FIELDS = {"l", "kids", "strict"}
-ROOTS = {"query": "Query", "mutation": "Mutation", "subscription": "Query"}
+LIST_FIELDS = {"l", "kids", "strict", "things"}
+ROOTS = {"query": "Query", "mutation": "Mutation", "subscription": "Subscription"}
+# sloppy mode: any directive name with any argument names and any values, anywhere
+DIR_NAMES = ["skip", "include", "defer", "stream", "custom", "deprecated", "specifiedBy", "oneOf", "unknown"]
+DIR_ARG_NAMES = ["if", "label", "initialCount", "n", "s", "inp", "l", "reason", "url", "nope"]
+DIR_ARG_VALUES = ["true", "false", "null", "\"x\"", "1", "-1", "1.5", "$b", "$i", "$s", "$undef", "[1]", "[]", "{a: 1}", "{req: null}", "RED",
+                  "99999999999", "\"\"\"b\"\"\""]
 # argument name -> (well-typed values, ill-typed / odd values)
 ARG_VALUES = {
     "i": (["1", "-3", "$i", "null"], ["\"s\"", "1.5", "2147483648"]),
@@ -63,8 +71,15 @@ class Gen:
             if where == "field" and is_list and r.random() < 0.3:
                 pool = ["@stream(initialCount: 1)", "@stream(initialCount: 0, label: \"s\")"]
             d = r.choice(pool)
-        else:
+        elif r.random() < 0.5:
             d = " ".join(r.choice(DIRECTIVES) for _ in range(r.choice([1, 1, 2])))
+        else:
+            ds = []
+            for _ in range(r.choice([1, 1, 2])):
+                names = r.sample(DIR_ARG_NAMES, r.choice([0, 1, 1, 2]))
+                args = "(" + ", ".join(f"{a}: {r.choice(DIR_ARG_VALUES)}" for a in names) + ")" if names else ""
+                ds.append("@" + r.choice(DIR_NAMES) + args)
+            d = " ".join(ds)
         self.note_vars(d)
         return " " + d
 
@@ -94,9 +109,10 @@ class Gen:
                 parts.append("..." + f[0] + self.directives(0.2, "fragment"))
             elif x < 0.23 and depth > 0:
                 if self.careful:
-                    cond = r.choice(["", f" on {tname}"] + ([" on Node"] if tname == "Named" else []) + ([" on Named"] if tname == "Node" else []))
+                    cond = r.choice(["", f" on {tname}"] + ([" on Node"] if tname in ("Named", "Thing") else []) + ([" on Named"] if tname == "Node" else [])
+                                    + ([" on Other"] if tname == "Thing" else []))
                 else:
-                    cond = r.choice(["", f" on {tname}", " on Node", " on Named", " on Query", " on Nope", " on Color"])
+                    cond = r.choice(["", f" on {tname}", " on Node", " on Named", " on Query", " on Nope", " on Color", " on Thing", " on Other"])
                 parts.append("..." + cond + self.directives(0.3, "fragment") + " " + self.selection_set(cond[4:] if cond else tname, depth - 1))
             else:
                 if not self.careful and r.random() < 0.05:
@@ -136,7 +152,7 @@ class Gen:
         r = self.rng
         self.careful = r.random() < 0.55
         nfr = r.choice([0, 0, 1, 2, 3])
-        frag_types = [r.choice(["Query", "Node", "Node", "Named"] if self.careful else ["Query", "Node", "Node", "Named", "Mutation", "Nope", "Color"])
+        frag_types = [r.choice(["Query", "Node", "Node", "Named"] if self.careful else ["Query", "Node", "Node", "Named", "Mutation", "Nope", "Color", "Thing", "Subscription"])
                       for _ in range(nfr)]
         all_frags = [(f"F{i}", frag_types[i]) for i in range(nfr)]
         self.used_frags = set()
